@@ -231,13 +231,22 @@ func (e *Exec) genOp(rng *lib.Rand, v int, kind string, bad bool) (Op, bool) {
 				op.Labels = append(op.Labels, l)
 			}
 		}
+		if adversarial == "merge-self" {
+			op.Labels = append(op.Labels, op.Target)
+			op.Bad = "merge-self"
+			return op, true
+		}
 		if bad {
-			if rng.Bool() {
+			switch rng.Intn(3) {
+			case 0:
 				op.Labels = append(op.Labels, e.fresh(rng))
 				op.Bad = "merge-missing"
-			} else {
+			case 1:
 				op.Target = e.fresh(rng)
 				op.Bad = "merge-into-missing"
+			default:
+				op.Labels = append(op.Labels, op.Target)
+				op.Bad = "merge-self"
 			}
 		}
 		return op, true
@@ -254,8 +263,16 @@ func (e *Exec) genOp(rng *lib.Rand, v int, kind string, bad bool) (Op, bool) {
 		b := cands[rng.Intn(len(cands))]
 		svs := vw.bodies[b]
 		op := Op{K: "cleave", V: v, Target: b, Labels: pickSubset(rng, svs, 1, len(svs)-1)}
+		if adversarial == "cleave-empty" {
+			op.Labels = []uint64{}
+			op.Bad = "cleave-empty"
+			return op, true
+		}
 		if bad {
-			switch rng.Intn(3) {
+			switch rng.Intn(4) {
+			case 3:
+				op.Labels = []uint64{}
+				op.Bad = "cleave-empty"
 			case 0:
 				op.Labels = svs
 				op.Bad = "cleave-all"
@@ -363,6 +380,11 @@ func (e *Exec) genOp(rng *lib.Rand, v int, kind string, bad bool) (Op, bool) {
 			return Op{}, false
 		}
 		op := Op{K: "renumber", V: v, Old: vw.blist[rng.Intn(len(vw.blist))], New: e.fresh(rng)}
+		if adversarial == "renumber-zero" {
+			op.New = 0
+			op.Bad = "renumber-zero"
+			return op, true
+		}
 		if adversarial == "renumber-sv" {
 			// new label = id of a live supervoxel that is not a body id (it was merged into another body)
 			var cands []uint64
@@ -380,13 +402,29 @@ func (e *Exec) genOp(rng *lib.Rand, v int, kind string, bad bool) (Op, bool) {
 			return op, true
 		}
 		if bad {
-			if len(vw.blist) < 2 {
-				return Op{}, false
+			if len(vw.blist) < 2 || rng.Chance(0.3) {
+				op.New = 0
+				op.Bad = "renumber-zero"
+				return op, true
 			}
 			for op.New = op.Old; op.New == op.Old; {
 				op.New = vw.blist[rng.Intn(len(vw.blist))]
 			}
 			op.Bad = "renumber-existing"
+			if rng.Chance(0.4) {
+				// the id of a live supervoxel that was merged into another body
+				var cands []uint64
+				for sv := range vw.svSize {
+					if _, isBody := vw.bodies[sv]; !isBody {
+						cands = append(cands, sv)
+					}
+				}
+				if len(cands) > 0 {
+					cands = sortedU64(cands)
+					op.New = cands[rng.Intn(len(cands))]
+					op.Bad = "renumber-sv"
+				}
+			}
 		}
 		return op, true
 	case "write":
